@@ -551,6 +551,13 @@ func grammarCorpus() (good, bad []string) {
 		head + "<- a\n",
 		"package p\ntype G Pig {}\nA <- .\n",
 		"package p\nimport fmt\ntype G Peg {}\nA <- .\n",
+		// keywords are words: what follows them without a break is not an alias or a name
+		"package p\nimportx \"fmt\"\ntype G Peg {}\nA <- .\n",
+		"package p\nimport_ \"embed\"\ntype G Peg {}\nA <- .\n",
+		"package p\nimport2 \"fmt\"\ntype G Peg {}\nA <- .\n",
+		"packagep\ntype G Peg {}\nA <- .\n",
+		"package p\ntypeG Peg {}\nA <- .\n",
+		"package p\ntype G PegX {}\nA <- .\n",
 		"package p\ntype G Peg {\nA <- .\n",
 		"package\ntype G Peg {}\nA <- .\n",
 		head + "A <- 'a' ?? \n 1\n",
